@@ -12,7 +12,7 @@ import warnings
 import z3
 
 from ..driver import Cond
-from ..harness import H, Reject, catch, cond_fn
+from ..harness import H, Reject, catch, cond_fn, shadow_type
 from .. import ch
 from ..symnp.scalars import BVT
 from .common import std_replay
@@ -401,7 +401,7 @@ def body_layout(B, I):
         if r[0] == 'exc' and r[1] == 'NotImplementedError' and not data_calls:
             return True
         return False, 'layout: unsupported layout not refused (mode=%r datatype=%r byteord=%r ' \
-                      'bad_width=%s -> %s)' % (mode, dtype, byteord, bad_width, r[:2])
+                      'bad_width=%s -> %s)' % (mode, dtype, byteord, bad_width, r[0])
     if r[0] != 'ok':
         return False, 'layout: supported layout refused: %s' % (r[1],)
     H.mark('supported')
@@ -453,7 +453,7 @@ def replay_layout(B, I):
         if r[0] == 'exc' and r[1] == 'NotImplementedError':
             return True
         return False, 'layout: unsupported layout not refused (mode=%r datatype=%r byteord=%r ' \
-                      'bad_width=%s -> %s)' % (mode, dtype, byteord, bad_width, r[:2])
+                      'bad_width=%s -> %s)' % (mode, dtype, byteord, bad_width, r[0])
     if r[0] != 'ok':
         return False, 'layout: supported layout refused: %s' % (r[1],)
     return True
@@ -461,7 +461,7 @@ def replay_layout(B, I):
 
 def make_layout(ti, D):
     def make(env):
-        env.shadow('io', int=model_int, float=model_float)
+        env.shadow('io', float=model_float, int=model_int)
         return cond_fn('fcsfile_layout',
                        [('mi', 'int'), ('bi', 'int'),
                         ('w', 'Tuple[int, int]'), ('r', 'Tuple[int, int]'), ('tot', 'int')],
@@ -534,7 +534,7 @@ def replay_offsets(B, I):
 
 
 def make_offsets(env):
-    env.shadow('io', int=model_int, float=model_float)
+    env.shadow('io', float=model_float, int=model_int)
     return cond_fn('fcsfile_offsets',
                    [('vi', 'int'), ('hb', 'int'), ('he', 'int'), ('tb', 'int'), ('te', 'int')],
                    body_offsets,
@@ -544,7 +544,7 @@ def make_offsets(env):
 def body_text_merge(B, I):
     """Supplemental TEXT merged over primary; ANALYSIS parsed with the primary delimiter."""
     if B.kind == 'real':
-        return True, 'not replayable on real files (stub-level condition)'
+        return replay_text_merge(B, I)
     version = VERSIONS[ch.pick(I['vi'], 0, len(VERSIONS))]
     sb, se = I['sb'], I['se']
     hab, hae, tab, tae = I['hab'], I['hae'], I['tab'], I['tae']
@@ -601,8 +601,47 @@ def body_text_merge(B, I):
     return True
 
 
+def replay_text_merge(B, I):
+    """Real file with the same features: supplemental TEXT present iff both offsets non-zero,
+    ANALYSIS offsets in HEADER and/or TEXT, ANALYSIS parseable or not."""
+    import os
+    from . import fcsgen
+    version = VERSIONS[I['vi']]
+    v3 = version in ('FCS3.0', 'FCS3.1')
+    has_s = I['sb'] != 0 and I['se'] != 0
+    in_h = I['hab'] != 0 and I['hae'] != 0
+    in_t = I['tab'] != 0 and I['tae'] != 0
+    analysis = '||bad' if I['araise'] else 'A1|a|'
+    path = fcsgen.write_fcs([[1], [2]], [16], version=version, extra_text={'K1': 'primary',
+                            'P1': 'p'}, stext='K1|supp|S1|s|' if has_s else None,
+                            analysis=analysis if (in_h or in_t) else None,
+                            analysis_in_header=in_h, analysis_in_text=in_t)
+    try:
+        with warnings.catch_warnings(record=True) as w:
+            warnings.simplefilter('always')
+            r = catch(B.FC.io.FCSFile, path)
+            nwarn = len(w)
+    finally:
+        os.unlink(path)
+    if r[0] != 'ok':
+        return False, 'text merge: load refused: %s' % (r[1],)
+    f = r[1]
+    exp_k1 = 'supp' if (v3 and has_s) else 'primary'
+    if f.text.get('K1') != exp_k1 or f.text.get('P1') != 'p' or \
+            (f.text.get('S1') != ('s' if (v3 and has_s) else None)):
+        return False, 'text merge: supplemental TEXT not read at its offsets with the ' \
+                      'primary delimiter'
+    expect_a = in_h or (v3 and in_t)
+    if not expect_a:
+        return f.analysis == {}, 'text merge: ANALYSIS read although no offsets are given'
+    if I['araise']:
+        return (f.analysis == {} and nwarn >= 1), \
+            'text merge: unparseable ANALYSIS must give a warning and {}'
+    return f.analysis == {'A1': 'a'}, 'text merge: ANALYSIS keywords not returned'
+
+
 def make_text_merge(env):
-    env.shadow('io', int=model_int, float=model_float)
+    env.shadow('io', float=model_float, int=model_int)
     return cond_fn('fcsfile_text_merge',
                    [('vi', 'int'), ('sb', 'int'), ('se', 'int'), ('hab', 'int'), ('hae', 'int'),
                     ('tab', 'int'), ('tae', 'int'), ('araise', 'bool')], body_text_merge,
@@ -685,7 +724,7 @@ def body_header(B, I):
 
 
 def make_header(env):
-    env.shadow('io', int=model_int, float=model_float)
+    env.shadow('io', float=model_float, int=model_int)
     return cond_fn('header_fields', [('f', 'Tuple[int, int, int, int, int, int]'),
                                      ('blank', 'Tuple[bool, bool]'), ('base', 'int')],
                    body_header, pre=['all(0 <= x <= 99999999 for x in f)', '0 <= base <= 3'])
